@@ -26,6 +26,8 @@ use std::char;
 use std::convert::TryFrom;
 use std::ffi::{CStr, CString, OsStr, OsString};
 use std::fmt::{self, Debug, Display, Formatter};
+use std::fs;
+use std::io;
 use std::iter::FusedIterator;
 use std::mem;
 use std::ops::Deref;
@@ -565,6 +567,18 @@ pub(crate) fn unlink<P: ?Sized + NixPath>(f: &P) -> nix::Result<()> {
     match unistd::unlink(f) {
         Err(Errno::ENOENT) => Ok(()),
         res => res,
+    }
+}
+
+/// Remove a job's temporary output, whatever the script made of it: a file, a
+/// symbolic link or a directory.  Not an error if it does not exist.
+pub(crate) fn remove_tmp<P: AsRef<Path> + ?Sized>(p: &P) -> io::Result<()> {
+    let p = p.as_ref();
+    match fs::symlink_metadata(p) {
+        Ok(m) if m.is_dir() => fs::remove_dir_all(p),
+        Ok(_) => fs::remove_file(p),
+        Err(e) if e.kind() == io::ErrorKind::NotFound => Ok(()),
+        Err(e) => Err(e),
     }
 }
 
